@@ -43,6 +43,7 @@ type Contract struct {
 	UsesAtRet   []Clause
 	Ghosts      []ghostDecl
 	Cases       []caseSplit
+	AtCall      map[string][]Clause // "pkg.Recv.Fn#k": what must hold of the arguments at that static call site
 	Calls       []string         // every returning path has called these module functions
 	LoopCalls   map[int][]string // every iteration of loop N calls these module functions
 	Logicals    []logicalDecl // universally quantified specification variables (fresh at entry)
@@ -115,7 +116,7 @@ type ContractSet struct {
 	Lemmas    []*Lemma
 }
 
-var kwRe = regexp.MustCompile(`^(func|def|recdef|opaque|reveal|mapinv|lemma|axiom|assert|use_at_return|use|ghost|cases|calls|logical|refusal_implies|props|circuit|plain|requires|ensures|honest|loop|modifies|flag|hint|sound_ensures|complete_ensures|sound_requires|complete_requires)\b`)
+var kwRe = regexp.MustCompile(`^(func|def|recdef|opaque|reveal|mapinv|lemma|axiom|assert|use_at_return|use|ghost|cases|at_call|calls|logical|refusal_implies|props|circuit|plain|requires|ensures|honest|loop|modifies|flag|hint|sound_ensures|complete_ensures|sound_requires|complete_requires)\b`)
 
 func endsOpen(s string) bool {
 	s = strings.TrimSpace(s)
@@ -431,6 +432,21 @@ func parseClause(c *Contract, t string, no int) error {
 			cs.Quick = append(cs.Quick, v)
 		}
 		c.Cases = append(c.Cases, cs)
+	case "at_call":
+		// at_call pkg.Recv.Fn#k <expr over the callee's parameter names and the caller's locals>
+		fs := strings.Fields(rest)
+		if len(fs) < 2 || !strings.Contains(fs[0], "#") {
+			return fmt.Errorf("at_call <callee>#<site> <expr>")
+		}
+		src := strings.TrimSpace(rest[len(fs[0]):])
+		ex, err := parseExprSrc(src)
+		if err != nil {
+			return err
+		}
+		if c.AtCall == nil {
+			c.AtCall = map[string][]Clause{}
+		}
+		c.AtCall[fs[0]] = append(c.AtCall[fs[0]], Clause{Expr: ex, Src: src, Line: no})
 	case "calls":
 		c.Calls = append(c.Calls, strings.Fields(rest)...)
 	case "logical":
